@@ -4,7 +4,7 @@ use crate::model::*;
 use crate::mon::Monitor;
 use crate::orc::*;
 use crate::report::*;
-use crate::rng::mix;
+use crate::rng::{mix, Rng};
 use crate::Ctx;
 use serde_json::{json, Value};
 use std::collections::HashSet;
@@ -40,6 +40,24 @@ pub fn check_children(run: &mut Run, c: MCell, target: i32, deep: bool) {
         v.sort_unstable();
         v
     };
+    // an accepted alias of the cell (a stray bit below the marker) must name the same node of the tree
+    if mix(id, 0xa11a5) % 16 == 0 {
+        let mut arng = Rng::stream(id, "C07.alias", target as u64);
+        if let Some(w) = stray_alias(&mut arng, c) {
+            run.count("aliases.tried");
+            if let Ok(v) = children(w, Some(target)) {
+                run.count("aliases.accepted_by_the_library");
+                if v != got {
+                    run.violation("C07.alias", json!({"cell": hu(id), "alias": hu(w), "target": target}), format!("cell_to_children({}) is accepted as an alias of {} but returns different children", hu(w), hu(id)));
+                }
+            }
+            if let (Ok(pa), Ok(pc)) = (parent(w, None), parent(id, None)) {
+                if pa != pc {
+                    run.violation("C07.alias", json!({"cell": hu(id), "alias": hu(w), "target": target}), format!("cell_to_parent({}) = {} but the aliased cell's parent is {}", hu(w), hu(pa), hu(pc)));
+                }
+            }
+        }
+    }
     if got.len() as u128 != fanout(c.res, target) {
         run.violation("C07.count", case(), format!("{} children, the hierarchy dictates {}", got.len(), fanout(c.res, target)));
     }
